@@ -930,6 +930,10 @@ func (e *wireExec) conservation(acc []accepted, orig *wireTok, mutant []byte, ki
 		// ... and the signature element must be one the ISSUER's key made over that signed part
 		// (checked with the key library directly, without any of go-ucan): a signature by somebody
 		// else, in whatever encoding, over content the issuer did sign elsewhere is still a forgery
+		if root, derr := cbDecodeAll(mutant); derr == nil && root.Major == 4 && len(root.Kids) == 2 && root.Kids[0].Major != 2 {
+			o.Violate("C06", "signature-not-by-issuer", fmt.Sprintf("%s accepted a %s mutant (%s) whose signature element is not a byte string: nothing was there to verify", a.dec, kindOfMutation, class), map[string]string{"mutation": kindOfMutation, "alg": orig.alg})
+			continue
+		}
 		if env, err := openEnvelope(mutant); err == nil {
 			if pub := e.pubs[rec.Iss]; pub != nil {
 				if ok, _ := pub.Verify(semanticCanon(env.sp).Encode(), env.sig.Data); !ok {
@@ -1409,6 +1413,17 @@ func (e *wireExec) sigStep(s *XStep, w *wireTok, env *envelope) {
 	switch s.Kind {
 	case "empty":
 		m.sig.Data = []byte{}
+	case "sig_shape":
+		// the signature element is not a byte string but a LIST (of none, of the genuine signature,
+		// of the genuine one and another), a map, a null: with the payload's nonce rewritten in
+		// half of the cases, so that what is accepted was never signed
+		genuine := append([]byte{}, m.sig.Data...)
+		if s.Val%2 == 1 {
+			payloadIn(m.sp).MapSet("nonce", cbBytes(labelNonce(fmt.Sprint("shape", s.Val), 12)))
+		}
+		shape := []*CB{cbArray(), cbArray(cbBytes(genuine)), cbArray(cbBytes(genuine), cbBytes([]byte{1})), cbMap(), cbNull(), cbArray(cbBytes(nil)), cbText("sig")}[s.Val/2%7]
+		*m.sig = *shape
+		desc = fmt.Sprintf("signature element of another shape (%d), payload rewritten: %v", s.Val/2%7, s.Val%2 == 1)
 	case "trunc":
 		n := s.At % (len(m.sig.Data) + 1)
 		m.sig.Data = m.sig.Data[:n]
@@ -1425,7 +1440,7 @@ func (e *wireExec) sigStep(s *XStep, w *wireTok, env *envelope) {
 		// 65-byte compact recoverable, 64-byte r||s, DER
 		fk := dsecp.PrivKeyFromBytes(labelNonce(fmt.Sprint("foreign-secp-key", s.Val%5), 32))
 		if s.Val%2 == 1 {
-			m.payload.MapSet("nonce", cbBytes(labelNonce(fmt.Sprint("alt", s.Val), 12)))
+			payloadIn(m.sp).MapSet("nonce", cbBytes(labelNonce(fmt.Sprint("alt", s.Val), 12)))
 		}
 		h := sha256.Sum256(m.sp.Encode())
 		switch s.Val / 2 % 4 {
@@ -1699,6 +1714,16 @@ func (e *wireExec) sigStep(s *XStep, w *wireTok, env *envelope) {
 	o.Fault("sig_" + s.Kind)
 	o.Sig("C06", w.spec.Kind, w.alg, "cbor", "sig:"+s.Kind, len(acc) > 0)
 	e.conservation(acc, w, data, "signature/header manipulation", desc, "cbor")
+}
+
+// payloadIn: the payload map inside a (cloned) signed part.
+func payloadIn(sp *CB) *CB {
+	for i := 0; i+1 < len(sp.Kids); i += 2 {
+		if strings.HasPrefix(string(sp.Kids[i].Data), "ucan/") && sp.Kids[i+1].Major == 5 {
+			return sp.Kids[i+1]
+		}
+	}
+	return &CB{Major: 5}
 }
 
 // ---- C06: field rewrites under the old signature
